@@ -223,6 +223,7 @@ func (g *Gen) execInstr(st *State, in ssa.Instruction) {
 		g.regs[x] = RefV{r, x.Type()}
 	case *ssa.MapUpdate:
 		g.note("map", "map update not modelled")
+		g.bumpMaps(st)
 		// oracle clause on the update:  callee mapupdate:<name>(k, v)
 		if g.spec != nil {
 			name := "mapupdate:" + g.describeValue(x.Map)
@@ -257,6 +258,33 @@ func (g *Gen) execInstr(st *State, in ssa.Instruction) {
 		g.assume(st, inv)
 		g.assume(st, g.allocatedInv(st, v, x.Type()))
 		g.regs[x] = v
+		// data invariant of the map's values stated by the contract:  callee maplookup:<name>(k) (v, ok)  ensures ...
+		if g.spec != nil {
+			name := "maplookup:" + g.describeValue(x.X)
+			for _, cs := range g.spec.Callees {
+				if cs.Name != name {
+					continue
+				}
+				g.calleeUse[cs]++
+				binds := map[string]Val{}
+				if len(cs.Params) > 0 {
+					binds[cs.Params[0]] = g.value(st, x.Index)
+				}
+				var results []Val
+				if tv, ok := v.(TupleV); ok {
+					results = tv.E
+				} else {
+					results = []Val{v}
+				}
+				ctx := &specCtx{g: g, st: st, old: st, binds: binds, results: results, resultNames: cs.Results, oldIsPre: true}
+				for _, c := range cs.Ensures {
+					g.assume(st, g.evalAssume(ctx, c.E))
+					if !g.discovery {
+						g.trustedUsed["map data invariant assumed at lookup "+name+": "+c.Src] = true
+					}
+				}
+			}
+		}
 	case *ssa.Range:
 		g.regs[x] = RefV{"0", x.Type()}
 		g.note("range", "range over map/string: iteration order and contents unconstrained")
